@@ -5,6 +5,7 @@ set -e
 cd "$(dirname "$0")/.."
 export CARGO_NET_OFFLINE=true CARGO_TARGET_DIR="$PWD/.cache/target"
 mkdir -p .cache bin evidence replays
+python3 tools/sig_check.py --regen
 ( cd coq && coq_makefile -f _CoqProject -o Makefile >/dev/null && timeout 3000 make -j16 )
 ( cd ocaml && ocamlfind ocamlopt -O2 -w -a -package zarith -linkpkg model.mli model.ml driver.ml -o ../bin/modelrun )
 ( cd harness && timeout 1500 cargo build --offline && timeout 1500 cargo build --offline --release )
